@@ -716,9 +716,85 @@ def witnesses(ctx):
                                    model=[st['err'], st['objs']], impl=[err, snap]); break
 
 
+def check_fixed(ctx, schema, ops, kind):
+    """a fixed history: oracle after every call on the real objects + correspondence with the model (failure causes outside the model are skipped there)"""
+    w = World(schema)
+    real = []
+    with db_session:
+        prev = []
+        for i, op in enumerate(ops):
+            err = w.apply(op)
+            snap = w.snapshot()
+            ctx.case({'schema': w.model_schema, 'op': op, 'i': i, 'directed': kind}, nontrivial=True, kind='directed-call')
+            ctx.count('directed:%s:%s:%s' % (kind, op['k'], err or 'ok'))
+            bad = ends_disagree(w, snap)
+            if bad:
+                p, key, q, why = bad[0]
+                report_violation(ctx, schema, ops[:i + 1], i, classify(w, op, err, p, key, q, prev), {'p': p, 'attr': list(key), 'q': q, 'why': why, 'outcome': err or 'ok'})
+                rollback(); w.db.disconnect(); return
+            skip = err is not None and err not in MODEL_ERRS
+            if skip and norm_dump(snap) != norm_dump(prev):
+                ctx.count('failure-outside-model:%s:STATE-CHANGED' % err); rollback(); w.db.disconnect(); return
+            real.append((err, snap, skip)); prev = snap
+        rollback()
+    w.db.disconnect()
+    if not ctx.driver.ok: return
+    out = ctx.driver('C12', [{'op': 'run', 'schema': w.model_schema, 'ops': [model_op(o) for o, r in zip(ops, real) if not r[2]]}])[0]
+    steps = out.get('steps')
+    if steps is None:
+        if 'unknown property' in str(out.get('driver_error')): raise RuntimeError('driver: %r' % out)
+        ctx.divergence('driver error', {'schema': schema, 'ops': ops}, model=out); return
+    k = -1
+    for i, (err, snap, skip) in enumerate(real):
+        if skip: continue
+        k += 1
+        m = steps[k]
+        if (m['err'] or None) != (err or None) or [o for o in norm_dump(m['objs']) if o['alive']] != [o for o in norm_dump(snap) if o['alive']]:
+            ctx.divergence('model and real code differ on a directed history', {'schema': schema, 'ops': ops[:i + 1]}, model=[m['err'], m['objs']], impl=[err, snap]); return
+
+
+def directed_phase(ctx, rng, n):
+    """multi-item calls on a one-to-many collection in which an EARLIER item succeeds and a LATER item fails
+    (key clash between the items, deleted item): after the failed call both ends must agree (and nothing may have changed)"""
+    for _ in range(n):
+        ref_first = rng.random() < 0.5
+        sides = [S(1, req=False), S(0, coll=True, casc=rng.choice([None, None, False]))]
+        rel = {'kind': 'm2o', 'sym': False, 'a': sides[0] if ref_first else sides[1], 'b': sides[1] if ref_first else sides[0], 'ckey': True}
+        refkey = [0, not ref_first]; collkey = [0, ref_first]
+        extra = gen_schema(rng)['rels'][:rng.choice([0, 0, 1])]
+        for r in extra:
+            r['a']['ent'] = min(r['a']['ent'], 1)
+            if 'b' in r: r['b']['ent'] = min(r['b']['ent'], 1)
+            if r.get('kind') == 'o2o' or r.get('kind') == 'm2o':
+                for sd in ('a', 'b'): r[sd]['req'] = False
+        schema = {'nent': 2, 'rels': [rel] + extra}
+        nown = rng.choice([1, 2])
+        ops = [{'k': 'create', 'e': 0, 'vals': [], 'tag': 0} for _ in range(nown)]
+        items = []
+        for j in range(rng.choice([2, 3, 4])):
+            owner = rng.choice([None, None] + list(range(nown))[1:])           # some items start in another owner's collection
+            tag = rng.choice([0, 0, 1])
+            ops.append({'k': 'create', 'e': 1, 'vals': [[refkey, {'ref': owner}]] if owner is not None else [], 'tag': tag})
+            items.append(nown + j)
+        how = rng.choice(['add', 'add', 'setColl', 'create', 'dead-item'])
+        if how == 'dead-item':
+            ops.append({'k': 'delete', 'o': rng.choice(items)})
+            ops.append({'k': rng.choice(['add', 'setColl']), 'o': 0, 'a': collkey, 'items': sorted(items), 'via': 'list'})
+        elif how == 'create':
+            ops.append({'k': 'create', 'e': 0, 'vals': [[collkey, {'coll': sorted(items)}]], 'tag': 0})
+        else:
+            ops.append({'k': how, 'o': 0, 'a': collkey, 'items': sorted(items), 'via': 'list'})
+        ops.append({'k': 'add', 'o': 0, 'a': collkey, 'items': [items[0]], 'via': 'single'})      # the session stays usable
+        try:
+            check_fixed(ctx, schema, ops, how)
+        except core.ERDiagramError:
+            ctx.count('schema-rejected:directed')
+
+
 def run(ctx):
     witnesses(ctx)
     rng = ctx.rng
+    directed_phase(ctx, rng, ctx.scale(60, 600))
     memory_phase(ctx, rng, ctx.scale(140, 2500), ctx.scale(14, 22))
 
 
